@@ -102,9 +102,10 @@ func (t *AppendOnlyTree) initCache(tx dbtypes.Txer) error {
 		}
 		return err
 	}
-	t.lastIndex = int64(lastRoot.Index)
+	// lastIndex is only updated once the cache has been rebuilt completely: a failed rebuild must not
+	// leave an index that matches the next leaf on top of a cache that was never loaded
+	index := int64(lastRoot.Index)
 	currentNodeHash := lastRoot.Hash
-	index := t.lastIndex
 	// It starts in height-1 because 0 is the level of the leafs
 	for h := int(types.DefaultHeight - 1); h >= 0; h-- {
 		currentNode, err := t.getRHTNode(tx, currentNodeHash)
@@ -130,6 +131,7 @@ func (t *AppendOnlyTree) initCache(tx dbtypes.Txer) error {
 		siblings[i], siblings[j] = siblings[j], siblings[i]
 	}
 
+	t.lastIndex = index
 	t.lastLeftCache = siblings
 	return nil
 }
